@@ -176,6 +176,8 @@ ApplyAllowed(i, b) ==
     [] i.op = "resume"   -> Live(i.s) /\ Commit(ResumeFx(Cur, i.s))
     [] i.op \in {"rmrealm", "closerouter"} -> Commit([CloseRealmFx(Cur) EXCEPT !.cfg.closed = TRUE])
     [] i.op = "hostile"  -> Commit(HostileFx(Cur, b.closed))
+    \* traffic among unobserved (tainted) sessions that the specification does not model
+    [] i.op = "pci"      -> Commit(HostileFx(Cur, b.closed))
     [] i.op = "metacall" ->
          /\ Live(i.s)
          /\ \E pick \in (IF b.reg # 0 THEN {b.reg} ELSE {regs[k].id : k \in BestRegs(Cur, i.uri2)} \cup {0}) :
@@ -224,7 +226,8 @@ TrShutdown ==
   /\ LET r == TraceLog[l] IN
        /\ r.in.op \in {"closerouter", "rmrealm"}
        /\ r.ret
-       /\ \A s \in Joined(Cur) : ToldShutdown(LoggedFor(r, s)) /\ NoInversion(LoggedFor(r, s))
+       /\ \A s \in Joined(Cur) : sess[s].attrs.color = "tainted"     \* (what unobserved sessions receive is not logged)
+                                \/ (ToldShutdown(LoggedFor(r, s)) /\ NoInversion(LoggedFor(r, s)))
        /\ Commit([CloseRealmFx(Cur) EXCEPT !.cfg.closed = TRUE, !.em = <<>>])
 
 \* after the realm is closed nobody can join it any more: an attach attempt ends
@@ -288,13 +291,33 @@ TrBurst ==
                         IN IF s \in DOMAIN sess /\ sess[s].stalled THEN b = <<>>       \* a session that does not read gets nothing now
                            ELSE IF SmallQueue(s) THEN SubBagOf(Proj(b), Proj(a))       \* tiny queue: may lose part of a burst
                            ELSE BagEq(Proj(a), Proj(b))                                \* everybody else: complete (C07)
-          ELSE \* mixed burst: only the orders are decided; the scenario ends here
+          ELSE IF r.in.how = "slow"
+          THEN \* a caller that does not read for three seconds: every progressive result and the
+               \* final one still arrive, in yield order (the retry path of C07 must not reorder, C08)
+               LET q == SelectSeq(LoggedFor(r, "zc"), LAMBDA m : m.k = "RESULT") IN
                /\ Commit(Cur)
+               /\ Len(q) = r.in.id + 1
+               /\ \A j \in DOMAIN q : q[j].x = j
                /\ (l + 1 > Len(TraceLog) \/ TraceLog[l + 1].ev = "reset")
+          ELSE \* mixed burst: only the orders are decided; the scenario ends here (with a sign of life)
+               /\ Commit(Cur)
+               /\ (l + 1 > Len(TraceLog) \/ TraceLog[l + 1].ev = "reset" \/ TraceLog[l + 1].in.op = "alive")
+
+\* C07: whatever the concurrent programs did, the router still serves: a session that
+\* joins afterwards is welcomed and its meta call answered
+TrAlive ==
+  /\ IsEvent("step")
+  /\ LET r == TraceLog[l]
+         q == LoggedFor(r, "zz") IN
+       /\ r.in.op = "alive"
+       /\ \E j \in DOMAIN q : q[j].k = "WELCOME"
+       /\ \E j \in DOMAIN q : q[j].k = "RESULT" /\ q[j].req = 1
+       /\ Commit(Cur)
+       /\ (l + 1 > Len(TraceLog) \/ TraceLog[l + 1].ev = "reset")
 
 TrStep == /\ IsEvent("step")
           /\ LET r == TraceLog[l] IN
-               /\ r.in.op \notin {"closerouter", "rmrealm", "burst"}
+               /\ r.in.op \notin {"closerouter", "rmrealm", "burst", "alive"}
                /\ ~(r.in.op = "join" /\ cfg.closed)
                /\ Apply(r.in, r.bind)
                /\ "snap" \notin Classes \/ SnapOK(r)
@@ -305,7 +328,7 @@ TrStep == /\ IsEvent("step")
                /\ Check(out', r)
 
 TraceInit == l = 1 /\ InitWith(InitCfg)
-TraceNext == TrReset \/ TrStep \/ TrShutdown \/ TrJoinClosed \/ TrBurst
+TraceNext == TrReset \/ TrStep \/ TrShutdown \/ TrJoinClosed \/ TrBurst \/ TrAlive
 TraceSpec == TraceInit /\ [][TraceNext]_tvars
 
 \* accepted iff every line was consumed (no silent steps: one state per line)
